@@ -14,6 +14,7 @@ import Proofs.ZoneFileLossless
 import Proofs.ZoneFileCodecLink
 import Proofs.ZoneFileGenLine
 import Proofs.ZoneFileGenTTL
+import Proofs.ZoneFileInclude
 import Proofs.ZoneFileTypeTok
 import Proofs.ZoneFileCodecA
 /-!
@@ -1048,6 +1049,91 @@ example (r0 : PState) (rest : List Nat) (hrel : r0.relativize = true) (hg : r0.g
     simp only [ls, List.mem_cons, List.mem_nil_iff, or_false] at hl
     rcases hl with rfl | rfl <;> exact ⟨rfl, rfl, by decide⟩
   · rw [hexp]; rfl
+
+/-! ### `$INCLUDE file [origin]` -/
+
+/-- **`$INCLUDE file origin⏎` saves and restores the parent's state.**  `Reader.read` pushes `(tok, current_origin,
+last_name, last_ttl(_known), default_ttl(_known))` — the parent's, taken *before* the include origin is installed — and
+the end of the included file pops them.  For an included file of record lines: its records are added, relative names
+completed with the include origin `o` (the token completed with the parent's current origin) and stored against the
+zone origin, and the parent resumes after the line in exactly the state it had: nothing the included file did to the
+current origin, the last owner or the TTLs leaks back.  (Seeded change C09-f saves the include's origin instead: the
+continuation state would carry `currentOrigin = some o`.) -/
+theorem include_restores_parent (f : Nat) (r : PState) (z : ZoneMap) (zo o : Name) (fname ot rest : List Nat)
+    (ls : List GLine) (d : Option Nat)
+    (hallow : r.allowInclude = true) (kf : TokOK fname) (ko : TokOK ot)
+    (hname : fromText ot r.currentOrigin = .ok o) (hfile : lookupFile r.files fname = some (glinesText ls))
+    (hzo : r.zoneOrigin = some zo)
+    (htok : r.tok = after 0 false (s2l "$INCLUDE" ++ (32 :: (fname ++ (32 :: (ot ++ 10 :: rest))))))
+    (hd : ∀ d', d = some d' → r.defaultTTLKnown = true ∧ r.defaultTTL = d')
+    (hok : LinesOK o zo r.relativize r.gfix r.lastName d ls) :
+    readLoop (f + 1 + ls.length + 1) r z =
+      (addAll r.effOrigin z (ls.map GLine.entry)).bind fun z' => readLoop f { r with tok := after 0 false rest } z' :=
+  include_origin_lines f r z zo o fname ot rest ls d hallow kf ko hname hfile hzo htok hd hok
+
+/-- the one-argument form `$INCLUDE file⏎`: the included file is read under the parent's current origin -/
+theorem include_plain_restores_parent (f : Nat) (r : PState) (z : ZoneMap) (co zo : Name) (fname rest : List Nat)
+    (ls : List GLine) (d : Option Nat)
+    (hallow : r.allowInclude = true) (kf : TokOK fname) (hfile : lookupFile r.files fname = some (glinesText ls))
+    (hco : r.currentOrigin = some co) (hzo : r.zoneOrigin = some zo)
+    (htok : r.tok = after 0 false (s2l "$INCLUDE" ++ (32 :: (fname ++ 10 :: rest))))
+    (hd : ∀ d', d = some d' → r.defaultTTLKnown = true ∧ r.defaultTTL = d')
+    (hok : LinesOK co zo r.relativize r.gfix r.lastName d ls) :
+    readLoop (f + 1 + ls.length + 1) r z =
+      (addAll r.effOrigin z (ls.map GLine.entry)).bind fun z' => readLoop f { r with tok := after 0 false rest } z' :=
+  include_plain_lines f r z co zo fname rest ls d hallow kf hfile hco hzo htok hd hok
+
+/-- **`$INCLUDE` versus the textually inlined spelling** `$ORIGIN origin⏎ <the file's lines> $ORIGIN <parent origin>⏎`:
+both add the same records (same fold of `txn.add`) and continue with the same rest of the parent file, the same current
+and zone origin; the continuation states differ only in what `$INCLUDE` restores and no directive can (last owner,
+last/default TTL): `sI` is the parent's state, `sL` carries what the inlined lines left. -/
+theorem include_vs_inline (f : Nat) (r : PState) (z : ZoneMap) (co zo o : Name) (fname ot pt rest : List Nat)
+    (ls : List GLine) (d : Option Nat)
+    (hallow : r.allowInclude = true) (kf : TokOK fname) (ko : TokOK ot) (kp : TokOK pt)
+    (hco : r.currentOrigin = some co) (hzo : r.zoneOrigin = some zo)
+    (hname : fromText ot (some co) = .ok o) (hoabs : isAbs o = true)
+    (hpname : (identToken pt).asName (some o) false none = .ok co) (hcabs : isAbs co = true)
+    (hfile : lookupFile r.files fname = some (glinesText ls))
+    (hd : ∀ d', d = some d' → r.defaultTTLKnown = true ∧ r.defaultTTL = d')
+    (hok : LinesOK o zo r.relativize r.gfix r.lastName d ls) :
+    ∃ sI sL : PState,
+      readLoop (f + 1 + ls.length + 1)
+          { r with tok := after 0 false (s2l "$INCLUDE" ++ (32 :: (fname ++ (32 :: (ot ++ 10 :: rest))))) } z =
+        ((addAll r.effOrigin z (ls.map GLine.entry)).bind fun z' => readLoop f sI z') ∧
+      readLoop (f + 1 + ls.length + 1)
+          { r with tok := after 0 false (originsText [(ot, o)] ++ (glinesText ls ++ (originsText [(pt, co)] ++ rest))) } z =
+        ((addAll r.effOrigin z (ls.map GLine.entry)).bind fun z' => readLoop f sL z') ∧
+      sI.tok = sL.tok ∧ sI.currentOrigin = sL.currentOrigin ∧ sI.zoneOrigin = sL.zoneOrigin ∧
+      sI.relativize = sL.relativize ∧ sI.saved = sL.saved ∧
+      sI.lastName = r.lastName ∧ sI.lastTTL = r.lastTTL ∧ sI.lastTTLKnown = r.lastTTLKnown ∧
+      sI.defaultTTL = r.defaultTTL ∧ sI.defaultTTLKnown = r.defaultTTLKnown := by
+  have hI := include_origin_lines f
+    { r with tok := after 0 false (s2l "$INCLUDE" ++ (32 :: (fname ++ (32 :: (ot ++ 10 :: rest))))) } z zo o fname ot rest
+    ls d hallow kf ko (by simpa [hco] using hname) hfile hzo rfl hd hok
+  have hL := inline_origin_lines f
+    { r with tok := after 0 false (originsText [(ot, o)] ++ (glinesText ls ++ (originsText [(pt, co)] ++ rest))) } z co zo o
+    ot pt rest ls d hzo ko (by simpa [hco] using asName_of_fromText ot co o hname hoabs) hoabs kp hpname hcabs rfl hd hok
+  have hF := finalStateR_fields ls (originsText [(pt, co)] ++ rest)
+    { ({ r with tok := after 0 false (originsText [(ot, o)] ++ (glinesText ls ++ (originsText [(pt, co)] ++ rest))) } : PState)
+      with tok := after 0 false (glinesText ls ++ (originsText [(pt, co)] ++ rest)), currentOrigin := some o } rfl
+  exact ⟨_, _, hI, hL, rfl, hco, hF.2.1.symm, hF.2.2.1.symm, hF.2.2.2.2.1.symm, rfl, rfl, rfl, rfl, rfl⟩
+
+/-- `allow_include=False`: `$INCLUDE` is not among the allowed directives -/
+theorem include_refused (r : PState) (T : List Nat) (hT : startsDelim T) (hallow : r.allowInclude = false)
+    (htok : r.tok = after 0 false (s2l "$INCLUDE" ++ T)) : lineStep r = .error .syntaxError :=
+  lineStep_include_refused r T hT hallow htok
+
+/-- non-vacuity, the situation of seeded change C09-f, end to end on the model: zone `ex.`, relativized,
+`$INCLUDE f branch` where `f` holds `a 300 IN A 10.0.0.1`, then `www 300 IN A 10.0.0.2` in the parent: `a` lands under
+`branch`, `www` under the zone origin again -/
+example :
+    zoneFromText (s2l "$INCLUDE f branch\nwww 300 IN A 10.0.0.2\n") (some [[101, 120], []]) true false false
+        [(s2l "f", s2l "a 300 IN A 10.0.0.1\n")] true =
+      .ok ([([s2l "a", s2l "branch"], [⟨1, 300, [⟨.a [10, 0, 0, 1], none⟩]⟩]),
+            ([s2l "www"], [⟨1, 300, [⟨.a [10, 0, 0, 2], none⟩]⟩])], some [[101, 120], []]) ∧
+    zoneFromText (s2l "$INCLUDE f branch\nwww 300 IN A 10.0.0.2\n") (some [[101, 120], []]) true false false
+        [(s2l "f", s2l "a 300 IN A 10.0.0.1\n")] false = .error .syntaxError := by
+  constructor <;> rfl
 
 /-! ### D08 — `want_generic` (recorded finding; DESIGN §6)
 
